@@ -227,6 +227,16 @@ def default_byte(key, addr):
 
 
 PAGE = 1024
+_FRESH = {}          # (key, page number) -> bytes of a never-written page (cache; pure function of its key)
+
+
+def fresh_page(k):
+    pg = _FRESH.get(k)
+    if pg is None:
+        if len(_FRESH) > 4096:
+            _FRESH.clear()
+        pg = _FRESH[k] = bytes(default_byte(k[0], k[1] * PAGE + i) for i in range(PAGE))
+    return bytearray(pg)
 
 
 class Memory(object):
@@ -245,8 +255,7 @@ class Memory(object):
         k = (self.key(x, y, p, addr), addr // PAGE)
         pg = self.pages.get(k)
         if pg is None:
-            base = (addr // PAGE) * PAGE
-            pg = self.pages[k] = bytearray(default_byte(k[0], base + i) for i in range(PAGE))
+            pg = self.pages[k] = fresh_page(k)
         return pg
 
     def peek(self, x, y, p, addr, n):
@@ -289,7 +298,7 @@ class Memory(object):
     def _get(self, k):
         pg = self.pages.get(k)
         if pg is None:
-            pg = bytearray(default_byte(k[0], k[1] * PAGE + i) for i in range(PAGE))
+            pg = fresh_page(k)
         return pg
 
     def diff(self, other):
